@@ -35,9 +35,56 @@ def _reset_classes(src):
     return names
 
 
+def _interval_shape(src, prod):
+    """The retry interval is touched in exactly four places: set from the argument in __init__, multiplied by the
+    factor after each of the two timers (metadata back-off, retry), reset in _complete_batch_send; and the class has
+    no tuning constant the model does not know."""
+    consts = sorted(t.id for n in prod.body if isinstance(n, ast.Assign) for t in n.targets
+                    if isinstance(t, ast.Name) and t.id.isupper())
+    if consts != ["DEFAULT_ACK_TIMEOUT", "DEFAULT_REQ_ATTEMPTS", "INIT_RETRY_INTERVAL", "RETRY_INTERVAL_FACTOR"]:
+        raise KeyError("Producer: class constants changed: %s" % consts)
+    writes = []
+    for n in ast.walk(prod):
+        targets = []
+        if isinstance(n, ast.Assign):
+            targets = n.targets
+        elif isinstance(n, ast.AugAssign):
+            targets = [n.target]
+        for t in targets:
+            if isinstance(t, ast.Attribute) and t.attr == "_retry_interval":
+                if isinstance(n, ast.AugAssign):
+                    ok = isinstance(n.op, ast.Mult) and isinstance(n.value, ast.Attribute) and n.value.attr == "RETRY_INTERVAL_FACTOR"
+                    writes.append("*=factor" if ok else "aug?")
+                else:
+                    v = n.value
+                    writes.append("=init" if (isinstance(v, ast.Attribute) and v.attr == "_init_retry_interval")
+                                  or (isinstance(v, ast.Name) and v.id == "retry_interval") else "=?")
+    if sorted(writes) != ["*=factor", "*=factor", "=init", "=init"]:
+        raise KeyError("Producer: _retry_interval is no longer (only) set from the argument, multiplied by RETRY_INTERVAL_FACTOR "
+                       "after the two timers and reset when the batch completes: %s" % sorted(writes))
+
+
+def _topic_len_bounds(src):
+    """`_coerce_topic`: `len(topic) < 1` / `len(topic) > 249` raise ValueError"""
+    f = src.func("_util.py", "_coerce_topic")
+    lo = hi = None
+    for n in ast.walk(f):
+        if (isinstance(n, ast.Compare) and isinstance(n.left, ast.Call) and isinstance(n.left.func, ast.Name) and n.left.func.id == "len"
+                and len(n.ops) == 1 and isinstance(n.comparators[0], ast.Constant)):
+            if isinstance(n.ops[0], ast.Lt):
+                lo = n.comparators[0].value
+            elif isinstance(n.ops[0], ast.Gt):
+                hi = n.comparators[0].value
+    if lo is None or hi is None:
+        raise KeyError("_coerce_topic: `len(topic) < lo` / `len(topic) > hi` not found")
+    return lo, hi
+
+
 def extract(src):
     prod = _class(src, "producer.py", "Producer")
     _reset_classes(src)
+    _interval_shape(src, prod)
+    lo, hi = _topic_len_bounds(src)
     return [
         ("producerRetryFactor", assigned(prod, "RETRY_INTERVAL_FACTOR")),
         ("producerInitRetryInterval", assigned(prod, "INIT_RETRY_INTERVAL")),
@@ -49,4 +96,6 @@ def extract(src):
         ("producerAckNotRequired", "Int", "(%d)" % _module_const(src, "common.py", "PRODUCER_ACK_NOT_REQUIRED")),
         ("producerErrnoUnknownTopic", "Int", "(%d)" % assigned(_class(src, "common.py", "UnknownTopicOrPartitionError"), "errno")),
         ("producerErrnoNotLeader", "Int", "(%d)" % assigned(_class(src, "common.py", "NotLeaderForPartitionError"), "errno")),
+        ("producerTopicMinLen", lo),
+        ("producerTopicMaxLen", hi),
     ]
